@@ -28,7 +28,7 @@ class Unsupported(Exception):
 class Target:
     def __init__(self, name, file, func, cls=None, params=(), ret="Rat", attrs=None, names=None, types=None, calls=None,
                  monadic=False, fuel=False, doc="", body_of_if=False, index_attrs=None, setter=False, assign_attrs=None,
-                 opt_attrs=None):
+                 opt_attrs=None, type_tests=None, imports=()):
         self.name, self.file, self.func, self.cls = name, file, func, cls
         self.params = list(params)          # [(python name or None, lean binder text)]
         self.ret = ret
@@ -44,7 +44,8 @@ class Target:
         self.setter = setter                # take the `@x.setter` definition of a property
         self.assign_attrs = assign_attrs or {}  # (var, attr) -> lean template of the new object value for `var.attr = {v}`
         self.opt_attrs = opt_attrs or {}
-        self.ret_self = setter or func == "__init__"    # (var, attr) -> lean text of the Option behind an attribute tested with `is None`
+        self.ret_self = setter or func == "__init__"
+        self.type_tests = type_tests or {}  # (dotted expr, class name) -> lean Bool for `type(expr) is Class`    # (var, attr) -> lean text of the Option behind an attribute tested with `is None`
 
 
 def find_func(tree, cls, func, setter=False):
@@ -133,6 +134,8 @@ class Tr:
         if isinstance(n, ast.Compare):
             # static type tests
             st = self.static_test(n)
+            if isinstance(st, tuple):
+                return st[1]
             if st is not None:
                 return "true" if st else "false"
             parts, left = [], n.left
@@ -192,6 +195,10 @@ class Tr:
         if len(n.ops) == 1 and isinstance(n.ops[0], (ast.Is, ast.IsNot)) and isinstance(n.left, ast.Call) \
                 and isinstance(n.left.func, ast.Name) and n.left.func.id == "type" and len(n.left.args) == 1:
             v = self.dotted(n.left.args[0])
+            tt = (v, self.dotted(n.comparators[0]))
+            if tt in self.t.type_tests:
+                r = self.t.type_tests[tt]
+                return ("dyn", r if isinstance(n.ops[0], ast.Is) else f"(!{r})")
             if v in self.t.types:
                 same = self.t.types[v] == self.dotted(n.comparators[0])
                 return same if isinstance(n.ops[0], ast.Is) else not same
@@ -215,6 +222,8 @@ class Tr:
         if dotted == "np.argmax" and isinstance(n.args[0], ast.Compare) and isinstance(n.args[0].ops[0], ast.Lt):
             c = n.args[0]
             return f"(CR.Py.argmaxLt {self.e(c.left)} {self.e(c.comparators[0])})"
+        if dotted in t.calls and t.calls[dotted][0].startswith("const:"):
+            return t.calls[dotted][0][len("const:"):]
         args = [self.e(a) for a in n.args]
         if dotted == "math.fmod":
             return f"(CR.Py.fmod {args[0]} {args[1]})"
@@ -238,7 +247,9 @@ class Tr:
         raise Unsupported(f"call {dotted}")
 
     def mcall(self, spec, args):
-        fn, monadic = spec
+        fn, monadic = spec[0], spec[1]
+        if fn.startswith("const:"):
+            return fn[len("const:"):]
         txt = f"{fn} " + " ".join(args)
         if monadic:
             self.uses_bind = True
@@ -256,12 +267,15 @@ class Tr:
         s, rest = stmts[0], stmts[1:]
         if isinstance(s, ast.Expr) and isinstance(s.value, ast.Constant) and isinstance(s.value.value, str):
             return self.block(rest, ind)            # docstring
+        if isinstance(s, ast.Expr) and isinstance(s.value, ast.Call) and self.dotted(s.value.func) == "warnings.warn":
+            return self.block(rest, ind)            # a warning is not part of the modelled result
         if isinstance(s, ast.Return):
             if s.value is None:
                 raise Unsupported("bare return")
             v = self.e(s.value)
+            opt_call = isinstance(s.value, ast.Call) and len(self.t.calls.get(self.dotted(s.value.func), ())) > 2
             if self.t.ret.startswith("Option") and not (isinstance(s.value, ast.Constant) and s.value.value is None) \
-                    and not isinstance(s.value, ast.Name):
+                    and not isinstance(s.value, ast.Name) and not opt_call:
                 v = f"some {v}"
             return f"{pad}return {v}"
         if isinstance(s, ast.Assert):
@@ -446,6 +460,22 @@ def targets():
                attrs={("self", "_initial_time_step"): "t0", ("self", "_state_list"): "(List.range n)"},
                index_attrs={("self", "_state_list"): "some ({i}).toNat"},
                doc="the state is identified by its index in the state list"),
+        Target("DynamicObstacle_occupancy_at_time", "commonroad/scenario/obstacle.py", "occupancy_at_time", "DynamicObstacle",
+               [(None, "tInit : Int"), (None, "p : CR.Occ.Pred"), ("time_step", "time_step : Int")], "Option CR.Occ.Occ",
+               names={"self.initial_state.time_step": "tInit"}, opt_attrs={("self", "_prediction"): "p"},
+               calls={"Occupancy": ("const:(some CR.Occ.Occ.init)", False, True),
+                      "self._prediction.occupancy_at_time_step": ("CR.Occ.predOccAt p", False, True)},
+               doc="Occupancy(t, initial occupancy shape) is the symbolic `Occ.init`"),
+        Target("DynamicObstacle_state_at_time", "commonroad/scenario/obstacle.py", "state_at_time", "DynamicObstacle",
+               [(None, "tInit : Int"), (None, "p : CR.Occ.Pred"), ("time_step", "time_step : Int")], "Option CR.Occ.StRef",
+               names={"self.initial_state.time_step": "tInit", "self.initial_state": "CR.Occ.StRef.init"},
+               opt_attrs={("self", "_prediction"): "p"},
+               type_tests={("self._prediction", "SetBasedPrediction"): "p.isSetBased"},
+               calls={"self.prediction.trajectory.state_at_time_step": ("CR.Occ.Pred.trajStateAt p", False, True)}),
+        Target("PhantomObstacle_occupancy_at_time", "commonroad/scenario/obstacle.py", "occupancy_at_time", "PhantomObstacle",
+               [(None, "p : Option (List CR.Occ.TS)"), ("time_step", "time_step : Int")], "Option CR.Occ.Occ",
+               opt_attrs={("self", "_prediction"): "p"},
+               calls={"self._prediction.occupancy_at_time_step": ("CR.Occ.predOccAt (.setBased (p.getD []))", False, True)}),
         Target("TrafficLightCycle_cycle_init_timesteps", "commonroad/scenario/traffic_light.py", "cycle_init_timesteps",
                "TrafficLightCycle", [(None, "es : List CR.TL.Elem"), (None, "off : Int")], "List Int",
                attrs={("self", "_cycle_elements"): "es", ("self", "time_offset"): "off", ("*", "duration"): "{v}.2"},
@@ -474,6 +504,7 @@ HEADER = """/-
 import CRModel.PyExt
 import CRModel.Interval
 import CRModel.TrafficLight
+import CRModel.Occupancy
 set_option linter.unusedVariables false
 namespace Gen
 open CR
